@@ -201,3 +201,5 @@ Print Assumptions C15_evoloop_orientation_free.
 Print Assumptions C15_loops_orientation_free_all_states.
 Print Assumptions C15_sdsr_defaults.
 Print Assumptions C15_evoloop_defaults.
+From CPL Require Import gen.GenFuns GenProps.GenFunsEquivC15 GenProps.C15Src. (* source tie: gen/GenFuns.v is regenerated from sdsr_loop.py, evoloop.py, ctrbl_rule.py on every run *)
+Theorem C15_source_tie : (forall top right bottom left : Z, src_sdsr_is_in_tube top right bottom left = is_in_tube top right bottom left) /\ (forall c t r b l : Z, src_sdsr_default c t r b l = sdsr_default c t r b l) /\ (forall c t r b l : Z, src_evoloop_default c t r b l = evoloop_default c t r b l) /\ (forall (tbl : table) (n : list (list Z)), src_sdsr_call (lookup tbl) n = SDSRLoop_call tbl n) /\ (forall (tbl : table) (n : list (list Z)), src_evoloop_call (lookup tbl) n = Evoloop_call tbl n) /\ (forall (tbl : table) (n : list (list Z)), src_ctrbl_call (lookup tbl) n = CTRBLRule_call tbl n). Proof. exact C15_source_translation_agrees. Qed. Print Assumptions C15_source_tie.
